@@ -1,17 +1,17 @@
 #!/usr/bin/env python
-"""C12: a write (and a close) addressed to a TCPClient after its disconnect
-leaves state behind for the dead socket:
-  Select     - the bytes stay in Client._buffer and _closeflag is armed; after
-               the next connect the stale bytes go to the NEW peer and the new
-               connection is closed behind the user's back
-  Poll/EPoll - the closed socket stays in the poller's _write list and _targets
-               map for ever (and the write handler dies with ValueError)."""
+"""
+C12 demo 3: a TCPClient whose TLS handshake fails reports `disconnected`
+although it never reported `connected` (here: connect(..., secure=True) to
+a port that speaks plain text; a certificate that does not verify gives the
+same result).
+"""
 import socket
 import sys
+import threading
 
-from circuits import Component, handler
-from circuits.core.pollers import EPoll, Poll, Select
-from circuits.net.events import close, connect, write
+from circuits import Component, Manager
+from circuits.core import pollers
+from circuits.net.events import connect
 from circuits.net.sockets import TCPClient
 
 
@@ -21,94 +21,62 @@ class Observer(Component):
     def init(self):
         self.log = []
 
-    @handler('connected')
-    def _on_connected(self, *args):
+    def connected(self, *args):
         self.log.append('connected')
 
-    @handler('disconnected')
-    def _on_disconnected(self, *args):
+    def disconnected(self, *args):
         self.log.append('disconnected')
 
-    @handler('exception', channel='*')
-    def _on_exception(self, etype, evalue, *args, **kwargs):
-        self.log.append('exception: %r' % (evalue,))
+    def unreachable(self, *args):
+        self.log.append('unreachable')
+
+    def error(self, *args):
+        self.log.append('error(%s)' % type(args[-1]).__name__)
 
 
-def step(m, n=10):
-    for _ in range(n):
-        m.tick(0.01)
+def plain_text_service(listener):
+    c, _ = listener.accept()
+    c.settimeout(5)
+    c.recv(4096)  # the ClientHello
+    c.sendall(b'220 plain text service ready\r\n')
+    c.close()
 
 
-def run(poller_cls):
-    name = poller_cls.__name__
-    problems = []
+def scenario(poller_cls):
     listener = socket.socket()
     listener.bind(('127.0.0.1', 0))
     listener.listen(5)
+    threading.Thread(target=plain_text_service, args=(listener,), daemon=True).start()
 
-    m = Observer()
-    poller = poller_cls().register(m)
-    client = TCPClient().register(m)
+    m = Manager()
+    poller_cls().register(m)
+    TCPClient().register(m)
+    o = Observer().register(m)
     m._running = True
-    step(m, 5)
-
-    # connection 1: connect, peer closes, client reports disconnected
-    m.fire(connect(*listener.getsockname()), 'client')
-    step(m)
-    peer1, _ = listener.accept()
-    peer1.close()
-    step(m)
-    assert m.log == ['connected', 'disconnected'], m.log
-
-    # late write and late close addressed to the connection that is gone
-    m.fire(write(b'LATE'), 'client')
-    step(m)
-    m.fire(close(), 'client')
-    step(m)
-
-    dead = [s for s in list(poller._read) + list(poller._write) + list(poller._targets) if not isinstance(s, int) and s.fileno() == -1]
-    print(f'  {name}: after late write+close: client._buffer={list(client._buffer)} _closeflag={client._closeflag} '
-          f'dead sockets known to poller={len(dead)} log={m.log[2:]}')
-    if client._buffer or client._closeflag:
-        problems.append('client keeps buffer/close flag of the dead connection')
-    if dead:
-        problems.append('poller keeps the closed socket registered')
-
-    # connection 2 on the same component: must not be affected by connection 1
-    m.fire(connect(*listener.getsockname()), 'client')
-    step(m)
-    peer2, _ = listener.accept()
-    peer2.settimeout(0.3)
-    m.fire(write(b'NEW'), 'client')
-    step(m, 20)
-    got = b''
-    try:
-        while True:
-            chunk = peer2.recv(100)
-            if not chunk:
-                got += b'<EOF>'
-                break
-            got += chunk
-    except socket.timeout:
-        pass
-    print(f'  {name}: second connection: peer received {got!r} (expected b\'NEW\', still open); client.connected={client.connected}')
-    if got != b'NEW':
-        problems.append('second connection received %r' % got)
+    for _ in range(5):
+        m.tick(0)
+    m.fire(connect('127.0.0.1', listener.getsockname()[1], secure=True), 'client')
+    for _ in range(100):
+        m.tick(0.01)
     listener.close()
-    return problems
+
+    n_conn = o.log.count('connected')
+    n_disc = o.log.count('disconnected')
+    print('%-6s observer saw %s -> connected x%d, disconnected x%d' % (poller_cls.__name__, o.log, n_conn, n_disc))
+    return n_conn == n_disc
 
 
 def main():
     bad = False
-    for cls in (Select, Poll, EPoll):
-        problems = run(cls)
-        for p in problems:
-            print(f'    -> {cls.__name__}: {p}')
-        bad |= bool(problems)
+    for name in ('Select', 'Poll', 'EPoll'):
+        if name == 'EPoll' and not hasattr(__import__('select'), 'epoll'):
+            continue
+        if not scenario(getattr(pollers, name)):
+            bad = True
     if bad:
-        print('VIOLATION: state of a disconnected client socket survives a late write/close')
+        print('VIOLATION: the client reported disconnected without ever having reported connected')
         return 1
-    print('OK: nothing is retained for the disconnected socket')
+    print('ok: as many disconnected as connected')
     return 0
 
 
